@@ -1,10 +1,10 @@
 package envenc
 
 import (
-	"math/big"
 	"encoding/binary"
 	"fmt"
 	"math"
+	"math/big"
 	"sort"
 )
 
@@ -68,6 +68,7 @@ func CInt(v int64) CB {
 	}
 	return head(1, uint64(-1-v))
 }
+
 // CBigInt writes an integer of any size in its preferred form: a plain integer (major type 0 / 1) while the argument fits in 64 bits
 // (that covers -2^64 .. 2^64-1), a bignum (tag 2 / 3) beyond.
 func CBigInt(x *big.Int) CB {
@@ -85,8 +86,8 @@ func CBigInt(x *big.Int) CB {
 }
 
 func CUintWide(v uint64, width int) CB { return headWidth(0, v, width) }
-func CBytes(b []byte) CB              { return append(head(2, uint64(len(b))), b...) }
-func CText(s string) CB               { return append(head(3, uint64(len(s))), s...) }
+func CBytes(b []byte) CB               { return append(head(2, uint64(len(b))), b...) }
+func CText(s string) CB                { return append(head(3, uint64(len(s))), s...) }
 func CArray(items ...CB) CB {
 	out := head(4, uint64(len(items)))
 	for _, it := range items {
@@ -107,6 +108,17 @@ func CMap(kv ...CB) CB {
 	return out
 }
 func CTag(n uint64, item CB) CB { return append(head(6, n), item...) }
+
+// Widen rewrites the head of a data item (integer, byte or text string, array, map, tag) with the next longer argument width: the
+// same item in a longer-than-shortest spelling.
+func Widen(item CB) CB {
+	major, arg, n, err := readHead(item)
+	if err != nil || major == 7 || n == 9 {
+		return item
+	}
+	width := map[int]int{1: 1, 2: 2, 3: 4, 5: 8}[n]
+	return append(headWidth(major, arg, width), item[n:]...)
+}
 
 // CTagWide writes the tag number with a forced argument width (1, 2, 4 or 8 bytes): a longer-than-shortest head.
 func CTagWide(n uint64, width int, item CB) CB { return append(headWidth(6, n, width), item...) }
